@@ -425,6 +425,17 @@ func (p *Packer) Unpack(r io.Reader, dst string) error {
 			return fmt.Errorf("failed to create directory %q: %w", dir, err)
 		}
 
+		// If an earlier entry left a symlink at this entry's own path then
+		// replace it instead of following it: creating a file or restoring
+		// metadata through the link would act on whatever it points to.
+		if filepath.Clean(info.Path) != filepath.Clean(dst) {
+			if fi, err := os.Lstat(info.Path); err == nil && fi.Mode()&os.ModeSymlink != 0 {
+				if err := os.Remove(info.Path); err != nil {
+					return fmt.Errorf("failed to replace symlink %q: %w", info.Path, err)
+				}
+			}
+		}
+
 		// Handle symlinks, directories, non-regular files
 		if info.IsSymlink() {
 			if ok, err := p.validSymlink(dst, header.Name, header.Linkname); ok {
